@@ -1089,3 +1089,86 @@ theorem C01_optimize_preserves (song : Song) (minScore : Int) (fuel : Nat) (r : 
     (fun T hT t' ht' => validAll_validOK T (hall T hT) id t' ht')
 
 end Ctrmml.C01
+
+/-! ## concrete instances for layers 2–3
+
+The hypotheses of the theorems above are satisfiable by concrete songs; where the kernel can
+evaluate the model (everything except the stack analysis, whose recursion is well-founded, and the
+library quicksort) the conclusions are checked by evaluation. -/
+namespace Ctrmml.C01.Ex2
+open Ctrmml Ctrmml.Tree Ctrmml.Expand Ctrmml.Rewrite Ctrmml.Opt Ctrmml.OptSteps Tables
+
+instance (l : List Event) : Decidable (NoEnd l) := by unfold NoEnd; infer_instance
+instance (l : List Event) : Decidable (BrkZero l) := by unfold BrkZero; infer_instance
+
+def n (k : Int) : Event := ⟨ev_NOTE, k, 6, 0⟩
+def okv {α : Type} (r : Except OErr α) : Option α := match r with | .ok a => some a | .error _ => none
+
+/-- six equal notes: `find_best_match` folds them into `[c]6` -/
+def songL : Song := { tracks := [(0, [n 1, n 1, n 1, n 1, n 1, n 1])] }
+def mL : SAMap := [(0, { eventList := [0, 0, 0, 0, 0, 0] })]
+def bmL : Match := { trackId := 0, position := 0, loopPosition := 1, loopLength := 5 }
+
+example : okv ((findBestMatch songL mL 15000).map fun r => (r.1.tracks, r.2.1, r.2.2)) =
+    some ([(0, [lsEv, n 1, leEv 6])], bmL, 15000) := by decide +kernel
+
+theorem wfL : SongWF songL := by
+  refine ⟨by decide, ?_⟩
+  intro p hp
+  simp only [songL, List.mem_singleton] at hp
+  subst hp
+  exact ⟨by decide, by decide, by decide⟩
+
+theorem loopOK_L : LoopOK songL mL bmL := by
+  refine ⟨by decide, by decide, by decide, ⟨5, by rfl⟩, ?_⟩
+  intro src hsrc
+  have : src = [n 1, n 1, n 1, n 1, n 1, n 1] := by
+    have h : songL.track? 0 = some [n 1, n 1, n 1, n 1, n 1, n 1] := rfl
+    rw [show bmL.trackId = 0 from rfl, h] at hsrc
+    exact (Option.some.inj hsrc).symm
+  subst this
+  decide
+
+example : ∃ S', applyMatch songL mL bmL 15000 = .ok (S', mL, 15000) ∧ StepN songL S' := by
+  obtain ⟨S', h1, h2, _⟩ := applyMatch_loop_is_step (subId := 15000) loopOK_L (by decide)
+    (src := [n 1, n 1, n 1, n 1, n 1, n 1]) rfl (by decide) (by decide) (by decide)
+  exact ⟨S', h1, h2⟩
+
+/-- the hypotheses of `C01_optimize_preserves` are satisfiable: the run of the optimiser on
+`songL` (which the compiled model evaluates to `[c]6`, one loop-fold pass and one empty pass) -/
+example (r : OptResult) (hr : optimize validAll 0 5 songL (initialSubId songL) [] = .ok r)
+    (hv : r.validated = true) (hcnt : initialSubId songL + (r.passes.length : Int) < 32768) :
+    okTrack r.song 0 ∧ obsOf r.song 0 = obsOf songL 0 :=
+  C01_optimize_preserves songL 0 5 r wfL (by decide) (by decide)
+    (fun id hid => by
+      have : id = 0 := by
+        by_cases h : id = 0
+        · exact h
+        · exfalso; apply hid
+          have hb : (id == 0) = false := by simp [h]
+          simp [Song.track?, songL, List.lookup, hb]
+      subst this
+      exact ⟨_, List.replicate 6 (item (n 1)), rfl, by rfl⟩)
+    hr hv hcnt 0 (by decide)
+
+/-- a phrase of four notes in two tracks: `find_best_match` extracts it into track 15000 -/
+def songS : Song := { tracks := [(0, [n 1, n 2, n 3, n 4, n 9]), (1, [n 7, n 1, n 2, n 3, n 4])] }
+def mS : SAMap := [(0, { eventList := [0, 0, 0, 0, 0] }), (1, { eventList := [0, 0, 0, 0, 0] })]
+def bmS : Match := { trackId := 0, position := 0, subLength := 4, subRepeats := 1, subScore := 2 }
+
+theorem wfS : SongWF songS := by
+  refine ⟨by decide, ?_⟩
+  intro p hp
+  simp only [songS, List.mem_cons, List.not_mem_nil, or_false] at hp
+  rcases hp with rfl | rfl <;> exact ⟨by decide, by decide, by decide⟩
+
+/-- the hypotheses of `applyMatch_sub_is_step` are satisfiable (the compiled model evaluates
+`applyMatch songS mS bmS 15000` to the song `0: *15000 n9`, `1: n7 *15000`, `15000: n1 n2 n3 n4`
+and the next id 15001; the kernel cannot evaluate the library quicksort it goes through) -/
+example (s3 : Song) (m3 : SAMap) (id' : Int) (h : applyMatch songS mS bmS 15000 = .ok (s3, m3, id')) :
+    StepN songS s3 ∧ id' = 15001 := by
+  obtain ⟨h1, h2, _⟩ := applyMatch_sub_is_step (src := [n 1, n 2, n 3, n 4, n 9]) wfS (by decide) rfl
+    (by decide) (by decide) (by decide) (by decide) h
+  exact ⟨h1, by rw [h2]; decide⟩
+
+end Ctrmml.C01.Ex2
